@@ -243,11 +243,16 @@ func init() {
 			}))
 		}
 		var parserLog []string
+		// packets handed to a custom parser belong to it from then on: they are kept and rendered again at the end
+		var heldPkts []*astits.Packet
+		var heldStr []string
 		if pk := c.str("parser"); pk != "none" {
 			opts = append(opts, astits.DemuxerOptPacketsParser(func(ps []*astits.Packet) ([]*astits.DemuxerData, bool, error) {
 				ccs := make([]string, len(ps))
 				for i, p := range ps {
 					ccs[i] = fmt.Sprintf("%d", p.Header.ContinuityCounter)
+					heldPkts = append(heldPkts, p)
+					heldStr = append(heldStr, canon(p))
 				}
 				parserLog = append(parserLog, fmt.Sprintf("%d:%s", ps[0].Header.PID, strings.Join(ccs, ",")))
 				switch pk {
@@ -404,6 +409,11 @@ func init() {
 		stable := true
 		for i, v := range kept {
 			if canon(v) != keptStr[i] {
+				stable = false
+			}
+		}
+		for i, p := range heldPkts {
+			if canon(p) != heldStr[i] {
 				stable = false
 			}
 		}
